@@ -40,7 +40,7 @@ func heavyTxn(n *kit.TNode, who, pick int, weight uint64, fee types.Currency) (t
 // weight limit, and pools beyond the ten-block pool limit; the block the
 // repository's miner assembles must be valid and accepted.
 func TestC05Heavy(t *testing.T) {
-	d := kit.NewDirect(t, "C05", "heavy family: for k = 0..40 a pool holding one v2 transaction of weight MaxBlockWeight-k (and, in a second sweep, two transactions summing to MaxBlockWeight-k); plus pools holding more than one block weight in which the transaction that no longer fits has a small dependant behind it, a pool at nine of ten block weights and a rejected set whose valid members would have filled it (v1 and v2; nothing may be evicted), resubmission of an evicted transaction (must not be 'known'), a pool of six v1 and six v2 transactions of 0.9 block weights each with interleaved fees (whatever is evicted must pay no more per weight than anything kept), and pools of 11 and 13 near-block-size transactions with distinct fees (beyond the ten-block pool limit). After each: the reported pool validates on the tip, the block MineBlock assembles is valid under core and accepted by AddBlocks, and so is the next one built from the remainder.")
+	d := kit.NewDirect(t, "C05", "heavy family: for k = 0..40 a pool holding one v2 transaction of weight MaxBlockWeight-k (and, in a second sweep, two transactions summing to MaxBlockWeight-k); plus pools holding more than one block weight in which the transaction that no longer fits has a small dependant behind it, a pool at nine of ten block weights and a rejected set whose valid members would have filled it (v1 and v2; nothing may be evicted), resubmission of an evicted transaction (must not be 'known'), a pool of six v1 and six v2 transactions of 0.9 block weights each with interleaved fees (whatever is evicted must pay no more per weight than anything kept; the pool is then mined down block by block inside the hardfork window, every block valid and accepted), and pools of 11 and 13 near-block-size transactions with distinct fees (beyond the ten-block pool limit). After each: the reported pool validates on the tip, the block MineBlock assembles is valid under core and accepted by AddBlocks, and so is the next one built from the remainder.")
 	defer d.Done()
 	type hcase struct {
 		Family string `json:"family"`
@@ -498,6 +498,36 @@ func TestC05Heavy(t *testing.T) {
 								cerr = fmt.Errorf("%+v: the pool is full and evicted %v (v2=%v, fee %v for weight %d) although it keeps %v (v2=%v, fee %v for weight %d), which pays less per weight", hc, g.id, g.v2, g.fee, g.weight, k.id, k.v2, k.fee, k.weight)
 							}
 						}
+					}
+				}
+			}
+			// mine the mixed pool down: inside the hardfork window every block the
+			// miner assembles (v1 and v2 transactions together, the v1 part cut to
+			// what fits) must be valid and accepted, until the pool is empty
+			cur := tip
+			for round := 0; cerr == nil && round < 14; round++ {
+				p1, p2 := node.CM.PoolTransactions(), node.CM.V2PoolTransactions()
+				if len(p1)+len(p2) == 0 {
+					cs.Classf("heavy:mixed-pool-mined-down-in=%d", round)
+					break
+				}
+				b, found := coreutils.MineBlock(node.CM, kit.Actors[1].Addr, 10*time.Second)
+				if !found {
+					cs.Inconclusive("miner-timeout")
+					break
+				}
+				mn := tr.AddDynamic(b)
+				if mn.Ledger == nil {
+					cerr = fmt.Errorf("%+v: block %d MineBlock assembled from the mixed pool (%d of %d v1 and %d of %d v2 transactions taken) is invalid: %v", hc, round+1, len(b.Transactions), len(p1), len(b.V2Transactions()), len(p2), mn.Err)
+				} else if err := node.CM.AddBlocks([]types.Block{b}); err != nil {
+					cerr = fmt.Errorf("%+v: block %d MineBlock assembled from the mixed pool was rejected: %v", hc, round+1, err)
+				} else {
+					if len(b.Transactions) >= 1 && len(b.Transactions) < len(p1) {
+						cs.Class("heavy:v1-pool-cut-to-fit-inside-hardfork-window")
+					}
+					cur = mn
+					if _, _, perr := checkPoolValid(node, cur.Ledger, uint64(782+round)); perr != nil {
+						cerr = fmt.Errorf("%+v: after mined block %d: %w", hc, round+1, perr)
 					}
 				}
 			}
